@@ -42,6 +42,17 @@ Fixpoint register_all (s : sreg) (rs : list reg_req) : sreg * list reg_out :=
     end
   end.
 
+(* The refusal is `syslog` Panicf, which panics only while the log level lets Panic messages through: at the quietest
+   level (app.LogLevel(syslog.LvFatal)) the duplicate is DROPPED silently — RegisterSingleton returns, the first
+   registrant keeps the name and SetComponents goes on with the next component.  [RegPanic] then reads "dropped". *)
+Fixpoint register_all_q (s : sreg) (rs : list reg_req) : sreg * list reg_out :=
+  match rs with
+  | [] => (s, [])
+  | r :: rest =>
+    let (s', o) := register s r in
+    let (s2, outs) := register_all_q s' rest in (s2, o :: outs)
+  end.
+
 (* SetComponents refused the component set: some registration panicked *)
 Definition is_panic (o : reg_out) : bool := match o with RegPanic => true | _ => false end.
 Definition refused_from (s : sreg) (rs : list reg_req) : bool := existsb is_panic (snd (register_all s rs)).
